@@ -1,5 +1,5 @@
 #!/bin/bash
-# runs every check registered in MANIFEST.json (quick tier) and prints one summary line each
+# runs every check registered in MANIFEST.json (quick tier), at most $PAR (default 5) at a time, and prints one summary line each
 cd "$(dirname "$0")/.."
 IDS=${@:-$(.venv/bin/python -c "import json;print(' '.join(c['property_id'] for c in json.load(open('MANIFEST.json'))['checks']))")}
-for p in $IDS; do ( ./check $p > /tmp/runall_$p.log 2>&1; echo "$p exit=$? $(tail -1 /tmp/runall_$p.log)" ) & done; wait
+printf '%s\n' $IDS | xargs -P ${PAR:-5} -I{} sh -c './check {} > /tmp/runall_{}.log 2>&1; echo "{} exit=$? $(tail -1 /tmp/runall_{}.log)"'
